@@ -614,7 +614,10 @@ fn record(args: &[String], out: &mut Out) {
                         let a = r.range(0, l - 1);
                         script.push(json!({"op": "new_substr", "n": n, "s": a, "e": r.range(a + 1, l)}));
                     }
-                    1 => script.push(json!({"op": "new_atom", "b": bytes_json(&r.bytes(*r.pick(&[5usize, 47, 48, 49])))})),
+                    1 => {
+                        let n = *r.pick(&[5usize, 47, 48, 49]);
+                        script.push(json!({"op": "new_atom", "b": bytes_json(&r.bytes(n))}));
+                    }
                     _ => script.push(json!({"op": "new_atom", "b": bytes_json(&gen_atom(&mut r))})),
                 }
                 for op in script {
